@@ -78,17 +78,13 @@ def toks_coq(l):
 
 def crash_sig(site, exc=None):
     """the signature of a crash: 'crash:<exception>:<file>:<function>' from common's (type, path, function) or
-    impl_c07's text - except for the two var() crashes, recognised by their mechanism (what raised, through what)"""
+    impl_c07's text"""
     if isinstance(site, (list, tuple)) and len(site) == 3:
         text = '%s:%s:%s' % (site[0], os.path.basename(site[1]), site[2])
     else:
         text = str(site)
     tb = (exc or {}).get('tb', '') if isinstance(exc, dict) else ''
     msg = (exc or {}).get('msg', '') if isinstance(exc, dict) else ''
-    if text.startswith('RecursionError') and ('resolve_var' in tb or 'resolve_var' in text):
-        return 'var:cycle'
-    if text == 'TypeError:__init__.py:resolve_var' and ('NoneType' in msg or not msg):
-        return 'var:plain-function'
     # the two selector crashes are the ones that come out of tinycss2's an+b parser, nothing else
     if text == 'AttributeError:__init__.py:preprocess_declarations' and exc is not None and 'nth.py' not in tb:
         return 'crash:' + text + ':not-nth'
@@ -728,35 +724,44 @@ def gen_var_value(rng, names, depth=0, allow_plain_func=False):
     return ' '.join(parts)
 
 
-def gen_var_case(rng, known_open):
-    """mostly acyclic definitions (a property refers to later ones only)"""
+def gen_var_case(rng):
+    """custom properties referring to later ones, 12% with references in any direction (cycles); 1..4 declaration
+    values resolved on one style, often with several references to one property under different fallbacks"""
     names = VAR_NAMES[:rng.choice([1, 2, 3, 4, 5, 6])]
     env = {}
-    cyclic = 'var-cycle' in known_open and rng.random() < 0.04
-    plain = 'var-plain-function' in known_open
+    cyclic = rng.random() < 0.12
     for i, x in enumerate(names):
         later = names[i + 1:] + ['--u']
         if rng.random() < 0.8:
-            env[x] = gen_var_value(rng, later if not cyclic else names, 1, allow_plain_func=plain)
+            env[x] = gen_var_value(rng, later if not cyclic else names, 1, allow_plain_func=True)
     if rng.random() < 0.1:
         env['--a_b'] = '9px'
-    return {'fn': 'var_case', 'env': env, 'value': gen_var_value(rng, names + ['--u'], 0, allow_plain_func=plain)}
+    values = [gen_var_value(rng, names + ['--u'], 0, allow_plain_func=True) for _ in range(rng.choice([1, 1, 2, 3, 4]))]
+    if rng.random() < 0.5:
+        # one property, several references, each with its own fallback - in one value and across values
+        x = rng.choice(names + ['--u', '--u'])
+        fbs = rng.sample(['10px', '20px', 'a b', 'var(--u, 5px)', 'var(%s, 3px)' % rng.choice(names), 'red', '0', 'f(1, 2)'], 3)
+        values.append('var(%s, %s) 1px var(%s, %s)' % (x, fbs[0], x, fbs[1]))
+        values.append('calc(var(%s, %s) + var(%s))' % (x, fbs[2], x))
+        rng.shuffle(values)
+    return {'fn': 'var_case', 'env': env, 'values': values}
 
 
 def cases_var(run, rng, n):
-    known_open = {k.get('signature') for k in run.known}
-    known_tags = set()
-    if 'var:cycle' in known_open:
-        known_tags.add('var-cycle')
-    if 'var:plain-function' in known_open:
-        known_tags.add('var-plain-function')
-    fixed = [{'fn': 'var_case', 'env': e, 'value': v} for e, v in [
+    fixed = [{'fn': 'var_case', 'env': e, 'values': v if isinstance(v, list) else [v]} for e, v in [
         ({'--a': '5px'}, 'var(--a)'), ({}, 'var(--a)'), ({}, 'var(--a, 7px)'), ({'--a': '5px 6px'}, 'var(--a) 1px'),
         ({'--a': 'var(--b)', '--b': '3px'}, 'var(--a)'), ({'--a': 'var(--b, 8px)'}, 'var(--a)'),
         ({'--a': '5px'}, 'calc(var(--a) + 1px)'), ({'--a': '5px'}, 'f(g(var(--a)))'), ({'--a': ''}, 'var(--a, 7px)'),
         ({'--a-b': '1px', '--a_b': '2px'}, 'var(--a-b)'), ({}, 'var(--u, a, b)'), ({'--a': 'x'}, 'f(var(--u))'),
-        ({'--a': '1px'}, 'var(--a) var(--a)'), ({'--A': '1px'}, 'var(--a, 2px)'), ({'--a': 'var(--u)'}, 'f(var(--a))')]]
-    return [{'fn': 'var_case', **c} for c in corpus('var')] + fixed + [gen_var_case(rng, known_tags) for _ in range(n)]
+        ({'--a': '1px'}, 'var(--a) var(--a)'), ({'--A': '1px'}, 'var(--a, 2px)'), ({'--a': 'var(--u)'}, 'f(var(--a))'),
+        ({'--x': 'var(--x)'}, 'var(--x)'), ({'--x': '1px var(--x)'}, 'var(--x, 7px)'),
+        ({'--x': 'var(--y)', '--y': 'var(--x)'}, ['var(--x, 1px)', 'var(--y, 2px)']),
+        ({'--a': '5px'}, 'calc(var(--a) + max(1px, 2px))'),
+        ({}, ['var(--gap, 10px)', 'var(--gap, 20px)']), ({}, ['0 var(--gap, 30px) 0 var(--gap, 5px)']),
+        ({'--gap': '3px'}, ['var(--gap, 10px)', 'var(--gap, 20px)']),
+        ({}, ['var(--g, var(--h, 6px))', 'var(--h, var(--g, 2px))', 'var(--g, 1px) var(--h, 4px)'])]]
+    return ([{'fn': 'var_case', 'env': c['env'], 'values': c.get('values') or [c['value']]} for c in corpus('var')] + fixed +
+            [gen_var_case(rng) for _ in range(n)])
 
 
 def stream_var(run, cases, outs):
@@ -766,36 +771,44 @@ def stream_var(run, cases, outs):
     for c, (st, o) in zip(cases, outs):
         if st != 'ok':
             fail(run, 'resolve_var harness call failed: %s' % (o,), {'stream': 'var', 'case': c, 'outcome': o},
-                     signature='crash:var-harness')
+                 signature='crash:var-harness')
             continue
-        if o['code'] != 0:
-            sig = {1: 'var:plain-function', 2: 'var:cycle'}.get(o['code'], 'crash:%s' % o['site'])
-            if sig in reported:
-                pass
-            else:
-                reported.add(sig)
-                fail(run, 'resolve_var raised %s for %s with %s' % (o['site'], c['value'], c['env']),
-                     {'stream': 'var', 'env': c['env'], 'value': c['value'], 'site': o['site']}, signature=sig)
         env = '[%s]' % '; '.join('(%s, %s)' % (slit(k), toks_coq(v)) for k, v in o['env'])
-        coq.append('(%s, %s, (%s, %s))' % (env, toks_coq(o['tokens']), nlit(o['code']), toks_coq(o['out'])))
-        kept.append((c, o))
+        for value, it in zip(c['values'], o['items']):
+            if it['code'] != 0:
+                sig = 'crash:%s' % it['site']
+                if sig not in reported:
+                    reported.add(sig)
+                    fail(run, 'resolve_var raised %s for %s with %s' % (it['site'], value, c['env']),
+                         {'stream': 'var', 'case': {'env': c['env'], 'values': c['values']}, 'site': it['site']}, signature=sig)
+            if [it['code'], it['out']] != it['alone'] and 'dep' not in reported:
+                reported.add('dep')
+                fail(run, 'the declarations of one element: resolving `%s` after %s on the same style gives %s, on a style '
+                          'of its own %s (custom properties %s): a reference is not substituted independently of the others'
+                     % (value, c['values'][:c['values'].index(value)], it['out'], it['alone'][1], c['env']),
+                     {'stream': 'var', 'case': {'env': c['env'], 'values': c['values']}}, signature='var:reference-dependence')
+            coq.append('(%s, %s, (%s, %s))' % (env, toks_coq(it['tokens']), nlit(it['code']), toks_coq(it['out'])))
+            kept.append((c, value, it))
     try:
         masks = common.eval_cases('c07var', HDR + IN.preamble(), 'list (string * list tok) * list tok * (nat * list tok)',
                                   coq, 'var_judge', per_file=max(60, len(coq) // 16 + 1))
     except RuntimeError as exc:
         run.oblige('corr:var-direct', False, str(exc))
         return
-    mism = [(c['env'], c['value'], o['code'], o['site']) for (c, o), m in zip(kept, masks) if m & 1]
+    mism = [(c['env'], c['values'], v, it['code'], it['site']) for (c, v, it), m in zip(kept, masks) if m & 1]
     run.oblige('corr:var-direct(model resolve_var/solved_tokens vs the real resolve_var on tinycss2 tokens)', not mism,
                'first disagreements: %s' % json.dumps(mism[:3])[:3000])
-    keys = [(len(c['env']), c['value'].count('var('), o['code'], len(o['out'])) for c, o in kept]
-    run.count('var-direct', len(kept), [(json.dumps(c['env'], sort_keys=True), c['value']) for c, _ in kept],
-              samples=[{'env': kept[-1][0]['env'], 'value': kept[-1][0]['value']}])
-    run.stream_info('var-direct', shapes=len(set(keys)), raised=sum(1 for _, o in kept if o['code']),
-                    rule='1..6 custom properties whose values refer to later ones (acyclic), var() with and without '
-                         'fallback (nested fallbacks to depth 2), inside functions (calc/rgb/max/f, before or after other '
-                         'arguments), inside ( ) [ ] { } blocks, odd spellings (upper case, leading/trailing comma, no '
-                         'comma), undefined names, names differing by - / _ ; 15 fixed boundary cases')
+    keys = [(len(c['env']), v.count('var('), it['code'], len(it['out'])) for c, v, it in kept]
+    run.count('var-direct', len(kept), [(json.dumps(c['env'], sort_keys=True), v) for c, v, _ in kept],
+              samples=[{'env': kept[-1][0]['env'], 'values': kept[-1][0]['values']}])
+    run.stream_info('var-direct', shapes=len(set(keys)), raised=sum(1 for _, _, it in kept if it['code']),
+                    styles=len(cases),
+                    rule='1..6 custom properties whose values refer to later ones, 12% in any direction (cycles); var() with '
+                         'and without fallback (nested to depth 2), inside functions (calc/rgb/max/f, next to var()-free '
+                         'functions), inside ( ) [ ] { } blocks, odd spellings, undefined names, names differing by - / _ ; '
+                         '1..6 declaration values resolved in turn on ONE real ComputedStyle, half of the time with several '
+                         'references to one property under different fallbacks; each also resolved on a style of its own; '
+                         '23 fixed boundary cases')
 
 
 # ================================================================================ 5. metamorphic renders
@@ -1109,6 +1122,39 @@ def gen_pair(rng, P, gr, bad_pool):
         # numerical remark): text metrics get a pixel of tolerance, everything else a twentieth
         tol = 0.75 if prop in ('font-size', 'word-spacing', 'letter-spacing', 'tab-size', 'line-height') else 0.05
         return dict(kind='units', sig='meta:units:%s' % prop, a=a, b=b, note='%s == %s' % (da, db), tol=tol)
+    if kind == 'var' and rng.random() < 0.3:
+        # several references to ONE custom property, each with its own fallback: two longhands, two components of a
+        # shorthand, fallbacks that are themselves var(); the property defined on the element, on an ancestor, nowhere
+        L = lambda: '%dpx' % rng.choice([1, 2, 3, 5, 8, 13, 21, 34])
+        shape = rng.choice(['two-longhands', 'two-components', 'nested', 'three'])
+        if shape == 'two-longhands':
+            pa, pb = rng.sample(['margin-left', 'padding-left', 'text-indent', 'border-left-width', 'min-height', 'width',
+                                 'margin-top', 'padding-right', 'letter-spacing'], 2)
+            tmpl = [(pa, 'var(--g, %s)' % L()), (pb, 'var(--g, %s)' % L())]
+        elif shape == 'two-components':
+            tmpl = [(rng.choice(['margin', 'padding', 'border-width']), '%s var(--g, %s) %s var(--g, %s)' % (L(), L(), L(), L()))]
+        elif shape == 'nested':
+            tmpl = [('text-indent', 'var(--g, var(--h, %s))' % L()), ('letter-spacing', 'var(--h, var(--g, %s))' % L()),
+                    ('margin-left', 'var(--g, %s)' % L())]
+        else:
+            tmpl = [('padding', 'var(--g, %s) var(--h, %s) var(--g, %s)' % (L(), L(), L())), ('margin-left', 'var(--h, %s)' % L()),
+                    ('width', 'var(--g, 70px)')]
+        if rng.random() < 0.5:
+            tmpl.reverse()
+        own, anc = {}, {}
+        for nm in ('--g', '--h'):
+            r = rng.random()
+            if r < 0.3:
+                own[nm] = L()
+            elif r < 0.5:
+                anc[nm] = L()
+        eff = dict(anc)
+        eff.update(own)
+        da = ';'.join(['%s:%s' % kv for kv in own.items()] + ['%s:%s' % d for d in tmpl])
+        db = ';'.join('%s:%s' % (pp_, substitute(v, eff)) for pp_, v in tmpl)
+        cont = ';'.join('%s:%s' % kv for kv in anc.items())
+        a, b = place(rng, da, db, cont, 'border-style:solid;position:relative;', where=rng.choice(['rule', 'rule', 'attr']))
+        return dict(kind='var', sig='meta:var:several-references', a=a, b=b, note='%s {.c: %s} == %s' % (da, cont, db))
     if kind == 'var':
         names = [n for n in gr.reg['properties'] if P.get(n) != ['0']]
         prop = rng.choice(names + ['margin', 'padding', 'border-top', 'border-radius', 'flex', 'columns', 'font',
@@ -1273,9 +1319,14 @@ def cases_render(rng, gr, n):
             case['control'] = dict(a=doc(cont, '', '#t{%s}' % more[1]), b=doc(cont, '', '#t{%s}' % more[2]), sig=more[3])
         fixed.append(case)
     # the witnesses of the open crash findings F126-F128 (a pair of identical documents)
-    for rules in ('#t{font-language-override:""}', '#t:nth-child(2n+){color:red}', '#t:nth-child(+){color:red}'):
+    for rules in ('#t{font-language-override:""}', '#t:nth-child(2n+){color:red}', '#t:nth-child(+){color:red}',
+                  'html{--v:inherit;width:var(--v)}', 'html{width:var(--v, inherit)}', '#t{background-image:url("//[::1")}',
+                  '@import "//[::1";', '#t{--x:var(--x);width:var(--x)}', '#t{--a:5px;width:calc(var(--a) + max(1px, 2px))}',
+                  '#t{grid-template:1px /;grid:/ 1px}'):
         d = doc('', '', rules)
         fixed.append(dict(fn='render_pair', kind='probe', sig='render-probe:%s' % rules, a=d, b=d, note='renders: ' + rules))
+    for html in ('<a href="//[::1">a</a>', '<img src="//[::1">'):
+        fixed.append(dict(fn='render_pair', kind='probe', sig='render-probe:%s' % html, a=html, b=html, note='renders: ' + html))
     cases = []
     tries = 0
     while len(cases) < n and tries < 20 * n:
@@ -1348,6 +1399,12 @@ SHARED_DECLS = [
     ('outline', 'var(--w) solid'), ('line-height', 'var(--lh)'), ('text-indent', 'var(--m)'),
     ('letter-spacing', 'var(--m)'), ('display', 'var(--d)'), ('font-size', 'var(--fs)'), ('gap', 'var(--m)'),
     ('font-weight', 'var(--fw, bold)'), ('text-align', 'var(--ta)'), ('float', 'var(--fl)'),
+    # several references to one property, each with its own fallback
+    ('margin-left', 'var(--g, 10px)'), ('padding-left', 'var(--g, 20px)'), ('margin', '0 var(--g, 30px) 0 var(--g, 5px)'),
+    ('border-left', 'var(--b, 4px solid)'), ('border-right', 'var(--b, 7px solid)'), ('text-indent', 'var(--g, var(--h, 6px))'),
+    ('letter-spacing', 'var(--h, var(--g, 2px))'), ('padding', 'var(--g, 1px) var(--h, 4px) var(--g, 3px)'),
+    ('border-width', 'var(--g, 1px) var(--g, 2px) var(--h, var(--g, 5px))'), ('width', 'var(--g, 70px)'),
+    ('min-height', 'var(--g, 40px)'),
 ]
 SHARED_VALUES = ['4px', '0', '1em', '10%', '4px 8px', '1px 2px 3px', '1px 2px 3px 4px', '1px 2px 3px 4px 5px', 'red', '#fff',
                  'solid', 'dotted', 'auto', 'none', 'bold', '2', '1.5', '12px', 'large', 'italic', 'thin', 'block',
@@ -1365,6 +1422,7 @@ SHARED_TYPED = {
     '--u': ['30px', '50%', 'auto', '1em'], '--r': ['4px', '4px 8px', '10%'], '--t': ['wavy', 'red', 'dotted', '2px'],
     '--l': ['square', 'none', 'decimal'], '--d': ['block', 'inline-block', 'none', 'flex'], '--fw': ['bold', '100', 'normal'],
     '--ta': ['left', 'center', 'right', 'justify'], '--fl': ['left', 'right', 'none'],
+    '--g': ['3px', '8px', '0', '1em'], '--h': ['9px', '2px', '0'], '--b': ['2px dotted', '5px solid', 'thin double'],
 }
 
 
@@ -1374,24 +1432,51 @@ def shared_value(rng, name):
     return rng.choice(SHARED_VALUES)
 
 
-VAR_RE = re.compile(r'var\(\s*(--[\w-]+)\s*(?:,\s*([^()]*?)\s*)?\)')
+VAR_RE = re.compile(r'var\(\s*(--[\w-]+)')
+
+
+def _var_at(text, i):
+    """text[i:] starts with `var(`: (name, fallback text or None, index after the closing parenthesis)"""
+    depth, j, comma = 0, i + 3, None
+    while j < len(text):
+        ch = text[j]
+        if ch == '(':
+            depth += 1
+        elif ch == ')':
+            depth -= 1
+            if depth == 0:
+                break
+        elif ch == ',' and depth == 1 and comma is None:
+            comma = j
+        j += 1
+    inner = text[i + 4:j]
+    if comma is None:
+        return inner.strip(), None, j + 1
+    return text[i + 4:comma].strip(), text[comma + 1:j].strip(), j + 1
 
 
 def substitute(template, effective, erase_undefined=False):
-    """the text of a declaration value after substitution; None = guaranteed-invalid (an undefined property
-    without fallback).  erase_undefined: what finding var:undefined-dropped computes instead - the var() erased"""
-    bad = []
-
-    def repl(m):
-        name, fb = m.group(1), m.group(2)
-        if name in effective:
-            return effective[name]
-        if fb is not None:
-            return fb
-        bad.append(name)
-        return ''
-    out = VAR_RE.sub(repl, template)
-    return None if (bad and not erase_undefined) else out
+    """the text of a declaration value after substitution, reference by reference: the property's value when it is
+    defined, else that reference's own fallback (itself substituted); None = guaranteed-invalid (an undefined
+    property without fallback).  erase_undefined: what finding var:undefined-dropped computes - the var() erased"""
+    out, i = '', 0
+    while i < len(template):
+        if template.startswith('var(', i):
+            name, fb, j = _var_at(template, i)
+            if name in effective:
+                out += effective[name]
+            elif fb is not None:
+                sub = substitute(fb, effective, erase_undefined)
+                if sub is None:
+                    return None
+                out += sub
+            elif not erase_undefined:
+                return None
+            i = j
+        else:
+            out += template[i]
+            i += 1
+    return out
 
 
 def gen_shared_values(rng, names):
@@ -1585,6 +1670,135 @@ def stream_pending(run, cases, outs):
                          'fresh objects; warnings counted')
 
 
+# ================================================================================ 5c. ranges
+
+# the properties of coq/model/C07Ranges.v with a valid, non-initial value each (the previous declaration of the cascade)
+RANGE_GOOD = {
+    'orphans': '3', 'widows': '3', 'column-count': '2', 'bookmark-level': '2', 'max-lines': '2', 'z-index': '3', 'order': '2',
+    'flex-grow': '2', 'flex-shrink': '2', 'padding-top': '3px', 'padding-right': '3px', 'padding-bottom': '3px',
+    'padding-left': '3px', 'width': '80px', 'height': '30px', 'min-width': '10px', 'min-height': '10px', 'max-width': '90px',
+    'max-height': '90px', 'font-size': '12px', 'flex-basis': '20px', 'column-gap': '4px', 'row-gap': '4px',
+    'border-top-width': '4px', 'border-right-width': '4px', 'border-bottom-width': '4px', 'border-left-width': '4px',
+    'outline-width': '4px', 'column-width': '50px', 'column-rule-width': '4px', 'margin-top': '6px', 'margin-right': '6px',
+    'margin-bottom': '6px', 'margin-left': '6px', 'text-indent': '6px', 'top': '6px', 'right': '6px', 'bottom': '6px',
+    'left': '6px', 'letter-spacing': '2px', 'word-spacing': '2px', 'outline-offset': '2px', 'tab-size': '4',
+    'font-weight': '700', 'opacity': '0.5', 'line-height': '2',
+}
+RANGE_TOKENS = ['0', '1', '2', '3', '-1', '-2', '100', '400', '401', '900', '950', '1000', '1001', '99999999999', '0.5', '1.5',
+                '1.0', '1e0', '+1', '01', '-0', '+0', '0.0', '1e3', '-0.5', '1e-1', '-100', '999.9', '1000.5', '0.9', '0.99',
+                '0px', '1px', '-1px', '-0.5em', '1.5em', '-0px', '10pt', '-1cm', '0%', '50%', '-1%', '150%', '-0%']
+
+
+def token_desc(text):
+    """(kind, value, written as an integer?) of a one-token value, None when it is none of number/length/percentage"""
+    import tinycss2
+    t = tinycss2.parse_one_component_value(text)
+    if t.type == 'number':
+        return 0, Fraction(t.representation) if 'e' not in t.representation.lower() else Fraction(t.value), t.int_value is not None
+    if t.type == 'percentage':
+        return 2, Fraction(t.value), False
+    if t.type == 'dimension' and t.unit in ('px', 'pt', 'pc', 'in', 'cm', 'mm', 'q', 'em', 'ex', 'ch', 'rem'):
+        return 1, Fraction(t.value), False
+    return None
+
+
+def range_spec(run):
+    """the verdicts of the Coq tables for every (property, token): [(prop, text, desc, css?, impl model?)]"""
+    items = [(p, t, token_desc(t)) for p in RANGE_GOOD for t in RANGE_TOKENS]
+    items = [x for x in items if x[2] is not None]
+    coq = ['(%s, %s, %s, %s)' % (common.slit(p), nlit(d[0]), qmk(d[1]), blit(d[2])) for p, _, d in items]
+    masks = common.eval_cases('c07rng', HDR + 'Require Import WV.model.C07Ranges.\n', 'string * nat * Q * bool', coq,
+                              'range_verdict', per_file=max(100, len(coq) // 16 + 1))
+    missing = sorted({p for (p, _, _), m in zip(items, masks) if not m & 4})
+    run.oblige('tie:ranges(every probed property is in the Coq table)', not missing, str(missing))
+    return [(p, t, d, bool(m & 1), bool(m & 2)) for (p, t, d), m in zip(items, masks)]
+
+
+def paged_doc(decls):
+    lines = '<br>'.join('abcdefgh'[:1 + i % 8] for i in range(12))
+    return ('<style>@page{size:100px 50px;margin:0}body{margin:0}p{margin:0;font:10px/10px weasyprint;border-style:solid;'
+            'border-width:0;outline-style:solid;position:relative;column-rule-style:solid;%s}</style><p id=t>%s</p>'
+            % (decls, lines))
+
+
+def cases_ranges(rng, spec, thorough):
+    direct = [{'fn': 'probe_decl', 'css': '%s:%s' % (p, t)} for p, t, d, css, impl in spec]
+    invalid = [(p, t) for p, t, d, css, impl in spec if not css]
+    if not thorough:
+        by_prop = {}
+        for p, t in invalid:
+            by_prop.setdefault(p, []).append(t)
+        invalid = [(p, t) for p, ts in by_prop.items() for t in rng.sample(ts, min(3, len(ts)))]
+        # the lower bounds themselves, always
+        invalid += [(p, '0') for p in ('orphans', 'widows', 'column-count', 'bookmark-level', 'max-lines', 'font-weight')]
+        invalid += [(p, '-1') for p in ('tab-size', 'line-height', 'flex-grow', 'orphans', 'widows')]
+        invalid = sorted(set(invalid))
+    pairs = []
+    for p, t in invalid:
+        good = RANGE_GOOD[p]
+        pairs.append(dict(fn='render_pair', kind='range', prop=p, token=t, sig='meta:range:%s' % p,
+                          a=paged_doc('%s:%s;%s:%s' % (p, good, p, t)), b=paged_doc('%s:%s' % (p, good)),
+                          note='%s:%s;%s:%s == %s:%s' % (p, good, p, t, p, good)))
+    return direct, pairs
+
+
+def flex_negative(p, t):
+    return p in ('flex-grow', 'flex-shrink') and token_desc(t) and token_desc(t)[0] == 0 and token_desc(t)[1] < 0
+
+
+def stream_ranges(run, spec, direct, douts, pairs, pouts):
+    mism, seen = [], set()
+    accepted_n = 0
+    for (p, t, d, css, impl), (st, o) in zip(spec, douts):
+        data = {'stream': 'ranges', 'css': '%s:%s' % (p, t)}
+        if st != 'ok':
+            fail(run, '`%s:%s` raised %s' % (p, t, o.get('msg') if isinstance(o, dict) else o), dict(data, outcome=o),
+                 signature='crash:range:%s' % p)
+            continue
+        accepted = o['yields'] > 0
+        accepted_n += accepted
+        if accepted != impl:
+            mism.append((p, t, accepted))
+        if accepted and not css:
+            sig = 'invalid-accepted' if flex_negative(p, t) else 'range:%s' % p
+            if sig not in seen:
+                seen.add(sig)
+                fail(run, '`%s: %s` is outside the grammar of %s and is accepted (as %s) instead of dropped with a warning'
+                     % (p, t, p, o['names']), data, signature=sig)
+        if not accepted and not o['warned'] and 'silent' not in seen:
+            seen.add('silent')
+            fail(run, '`%s: %s` is dropped without a warning' % (p, t), data, signature='range:dropped-silently')
+    run.oblige('corr:ranges(model impl_accepts vs preprocess_declarations, %d tokens x %d properties)'
+               % (len(RANGE_TOKENS), len(RANGE_GOOD)), not mism, 'first disagreements (property, token, accepted): %s' % mism[:8])
+    differ = 0
+    for c, (st, o) in zip(pairs, pouts):
+        data = {'stream': 'render', 'case': c}
+        if st != 'ok':
+            sig = crash_sig(o['site'], o) if st == 'exc' else 'timeout:render'
+            if sig not in seen:
+                seen.add(sig)
+                fail(run, 'rendering %s: %s' % (c['note'], o if st != 'exc' else o['type']), dict(data, exc=o), signature=sig)
+            continue
+        if not o['same']:
+            differ += 1
+            sig = 'invalid-accepted' if flex_negative(c['prop'], c['token']) else c['sig']
+            if sig not in seen:
+                seen.add(sig)
+                fail(run, 'an out-of-range declaration does not vanish: %s: %s' % (c['note'], o['diff']),
+                     dict(data, diff=o['diff']), signature=sig)
+    run.count('ranges', len(spec) + len(pairs), [(p, t) for p, t, _, _, _ in spec],
+              samples=[{'decl': '%s:%s' % (spec[0][0], spec[0][1])}] if spec else [])
+    run.stream_info('ranges', declarations=len(spec), accepted=accepted_n,
+                    outside_grammar=sum(1 for x in spec if not x[3]), render_pairs=len(pairs), render_differences=differ,
+                    rule='%d properties whose value is one number/length/percentage x %d tokens (each bound -1, at, +1, huge, '
+                         'negative, non-integer spellings 1.0 1e0 +1 01 -0, lengths and percentages of both signs); the verdict '
+                         'of the grammar (css_accepts) and of the validators\' model (impl_accepts) computed in Coq first; '
+                         'accepted iff the model says so (correspondence), never accepted outside the grammar (spec), dropped '
+                         'with a warning; and for tokens outside the grammar the paginated document `p{prop:good;prop:bad}` '
+                         'must render as `p{prop:good}` (12 lines on 50px pages: orphans/widows/columns matter)'
+                         % (len(RANGE_GOOD), len(RANGE_TOKENS)))
+
+
 # ================================================================================ 6. spec probes
 
 # (declaration, is it valid CSS for a property WeasyPrint supports?, signature of the open finding it is the witness
@@ -1639,6 +1853,13 @@ RENDER_PROBES = [
      '--a-b:1px;--a_b:2px;width:var(--a-b)', 'width:2px', 'var:dash-underscore'),
     ('flex:1 0.0', 'flex-grow:1;flex-shrink:0;flex-basis:0px', None, 'a unitless zero is a flex factor', 'display:flex;',
      'flex:1 0', 'flex-grow:1;flex-shrink:0;flex-basis:0px', 'flex:unitless-zero-spelling'),
+    ('--x:1px var(--x);width:var(--x, 7px)', 'width:7px', None, 'a property of a cycle is invalid: the fallback', '',
+     '--x:1px var(--x);width:var(--x, 7px)', 'width:1px', 'var:cycle-erased'),
+    ('--x:var(--y);--y:var(--x);width:var(--x, 7px)', 'width:7px', None, 'a cycle of two: the fallback', '',
+     '--x:var(--y);--y:var(--x);width:var(--x, 7px)', 'width:auto', 'var:cycle-erased'),
+    ('margin-left:var(--gap, 10px);padding-left:var(--gap, 20px)', 'margin-left:10px;padding-left:20px', None,
+     'each reference its own fallback'),
+    ('margin:0 var(--gap, 30px) 0 var(--gap, 5px)', 'margin:0 30px 0 5px', None, 'each reference its own fallback'),
     ('--x:5px;width:var(--x)', 'width:5px', None, 'plain substitution'),
     ('--x:5px;width:var(--X, 9px)', 'width:9px', None, 'custom property names are case-sensitive'),
 ]
@@ -1677,7 +1898,7 @@ def stream_probes(run, cases, outs):
 def check(run):
     rng = random.Random(run.seed * 7919 + 7)
     thorough = run.tier == 'thorough'
-    common.prove(run, 'C07', ['model/C07Full.vo', 'model/C07Var.vo', 'model/C07Units.vo', 'model/C07Pending.vo'])
+    common.prove(run, 'C07', ['model/C07Full.vo', 'model/C07Var.vo', 'model/C07Units.vo', 'model/C07Pending.vo', 'model/C07Ranges.vo'])
     run.trusted += ['Coq 8.16.1 kernel (coqc); vm_compute for the cases.v evaluation',
                     'tinycss2 (tokeniser/parser) is taken as given: the models start from its nodes',
                     'harness/impl_c07.py: conversion of tinycss2 nodes and validated values (canonical text, sha1) '
@@ -1698,10 +1919,17 @@ def check(run):
                     rule='for each of the %d names of PROPERTIES and EXPANDERS: which of ~1300 candidate values (generic '
                          'single tokens, idents quoted in its validator, the strings of tests/css/test_validation.py and '
                          'test_expanders.py) the implementation accepts' % len(gr.names))
-    streams = [('pp', cases_pp(rng, gr, 24000 if thorough else 2600)),
+    try:
+        spec = range_spec(run)
+    except RuntimeError as exc:
+        run.oblige('spec:ranges', False, str(exc))
+        spec = []
+    rdirect, rpairs = cases_ranges(rng, spec, thorough)
+    streams = [('rdirect', rdirect), ('rpairs', rpairs),
+               ('pp', cases_pp(rng, gr, 24000 if thorough else 2600)),
                ('dispatch', cases_dispatch(rng, gr, 40000 if thorough else 4000)),
                ('units', cases_units(rng, 4000 if thorough else 300)),
-               ('var', cases_var(run, rng, 20000 if thorough else 1500)),
+               ('var', cases_var(run, rng, 8000 if thorough else 600)),
                ('render', cases_render(rng, gr, 6000 if thorough else 500)),
                ('probes', cases_probes()),
                ('pending', cases_pending(rng, 6000 if thorough else 700)),
@@ -1720,6 +1948,7 @@ def check(run):
     stream_probes(run, *res['probes'])
     stream_pending(run, *res['pending'])
     stream_shared(run, *res['shared'])
+    stream_ranges(run, spec, res['rdirect'][0], res['rdirect'][1], res['rpairs'][0], res['rpairs'][1])
 
 
 def replay(data):
@@ -1745,11 +1974,15 @@ def replay(data):
         stream_dispatch(run, gr, cases, run_multi(cases))
     elif stream == 'var':
         c = d.get('case') or {'env': d['env'], 'value': d['value']}
-        cases = [{'fn': 'var_case', 'env': c['env'], 'value': c['value']}]
+        cases = [{'fn': 'var_case', 'env': c['env'], 'values': c.get('values') or [c['value']]}]
         stream_var(run, cases, run_multi(cases))
     elif stream == 'units':
         cases = [dict(d['case'], fn='length_case')]
         stream_units(run, reg, cases, run_multi(cases))
+    elif stream == 'ranges':
+        spec = [x for x in range_spec(run) if '%s:%s' % (x[0], x[1]) == d['css']]
+        direct = [{'fn': 'probe_decl', 'css': d['css']}]
+        stream_ranges(run, spec, direct, run_multi(direct), [], [])
     elif stream == 'pending':
         cases = [dict(d['case'], fn='pending_seq')]
         stream_pending(run, cases, run_multi(cases))
